@@ -147,24 +147,29 @@ def lean_env():
     e = lambda *a: subprocess.run(['lake', 'env', *a], cwd=LEAN_DIR, capture_output=True, text=True).stdout.strip()
     return e('which', 'lean'), e('printenv', 'LEAN_PATH')
 
+TIES = ['TieEnv', 'TieEnvName', 'TieEnvMdns']
+
 def tie_fails(lean, lean_path, tmp, generated):
-    """None if TieEnv.lean checks against `generated`, else the name of the first theorem that fails"""
+    """None if the three envelope modules (TieEnv, TieEnvName, TieEnvMdns) check against `generated`, else the name of the first theorem that fails"""
     d = tempfile.mkdtemp(prefix='lean', dir=tmp)
     src, lib = os.path.join(d, 'src'), os.path.join(d, 'lib')
     os.makedirs(os.path.join(src, 'TieScratch')); os.makedirs(os.path.join(lib, 'TieScratch'))
     open(os.path.join(src, 'TieScratch/Envelope.lean'), 'w').write(generated)
-    open(os.path.join(src, 'TieEnv.lean'), 'w').write(open(TIE).read().replace('import SimpleDnsModel.Generated.Envelope', 'import TieScratch.Envelope'))
     env = dict(os.environ, LEAN_PATH=lib + ':' + lean_path)
     p = subprocess.run([lean, 'TieScratch/Envelope.lean', '-o', os.path.join(lib, 'TieScratch/Envelope.olean')], cwd=src, env=env, capture_output=True, text=True)
     if p.returncode != 0: return 'generated file does not compile: ' + (p.stdout + p.stderr)[:200]
-    p = subprocess.run([lean, 'TieEnv.lean'], cwd=src, env=env, capture_output=True, text=True)
-    if p.returncode == 0: return None
-    m = re.search(r'TieEnv\.lean:(\d+):', p.stdout + p.stderr)
-    lines = open(TIE).read().split('\n')
-    for k in range(int(m.group(1)) - 1, -1, -1) if m else []:
-        t = re.match(r'theorem (\w+)', lines[k])
-        if t: return t.group(1)
-    return (p.stdout + p.stderr)[:200]
+    for mod in TIES:
+        path = os.path.join(LEAN_DIR, f'SimpleDnsModel/Props/{mod}.lean')
+        open(os.path.join(src, mod + '.lean'), 'w').write(open(path).read().replace('import SimpleDnsModel.Generated.Envelope', 'import TieScratch.Envelope'))
+        p = subprocess.run([lean, mod + '.lean'], cwd=src, env=env, capture_output=True, text=True)
+        if p.returncode == 0: continue
+        m = re.search(re.escape(mod) + r'\.lean:(\d+):', p.stdout + p.stderr)
+        lines = open(path).read().split('\n')
+        for k in range(int(m.group(1)) - 1, -1, -1) if m else []:
+            t = re.match(r'theorem (\w+)', lines[k])
+            if t: return t.group(1)
+        return (p.stdout + p.stderr)[:200]
+    return None
 
 def main():
     ap = argparse.ArgumentParser(); ap.add_argument('--repo', default='/repo'); args = ap.parse_args()
